@@ -51,6 +51,8 @@ enum Spelling {
 struct Mode {
     spelling: Spelling,
     split_lists: bool,
+    /// write the `#[serde(..)]` lists in front of the `#[ts(..)]` lists
+    serde_first: bool,
     /// insert this junk into the serde list of attribute position `junk_at` (positions are
     /// numbered in rendering order), at list index `junk_idx` (clamped)
     junk: Option<(usize, usize, &'static str)>,
@@ -221,7 +223,8 @@ impl Renderer<'_> {
             }
             serde.insert(at, text.to_string());
         }
-        for (name, list) in [("ts", ts), ("serde", serde)] {
+        let lists = if self.mode.serde_first { [("serde", serde), ("ts", ts)] } else { [("ts", ts), ("serde", serde)] };
+        for (name, list) in lists {
             if list.is_empty() {
                 continue;
             }
@@ -333,7 +336,7 @@ fn c10_eval(words: &[u32], exclude: &[String], stats: Option<&mut Report>) -> Op
     let item = c10_item(words);
     let serde_on = cfg!(feature = "serde-compat");
     let w = |k: usize| words.get(200 + k).copied().unwrap_or(0);
-    let plain = |spelling| Mode { spelling, split_lists: false, junk: None };
+    let plain = |spelling| Mode { spelling, split_lists: false, serde_first: false, junk: None };
     let (src_serde, _, _, positions) = c10_render(&item, &plain(Spelling::Serde));
     let (src_ts, moved, _, _) = c10_render(&item, &plain(Spelling::Ts));
     let (src_none, _, _, _) = c10_render(&item, &plain(Spelling::Stripped));
@@ -345,8 +348,8 @@ fn c10_eval(words: &[u32], exclude: &[String], stats: Option<&mut Report>) -> Op
         nontrivial |= moved > 0;
         result = result.or_else(|| c10_relation("all-serde == all-ts", &src_serde, &src_ts, "serde-ts-spelling-differ"));
         // split over several lists
-        let (split_serde, _, _, _) = c10_render(&item, &Mode { spelling: Spelling::Serde, split_lists: true, junk: None });
-        let (split_ts, _, _, _) = c10_render(&item, &Mode { spelling: Spelling::Ts, split_lists: true, junk: None });
+        let (split_serde, _, _, _) = c10_render(&item, &Mode { spelling: Spelling::Serde, split_lists: true, serde_first: false, junk: None });
+        let (split_ts, _, _, _) = c10_render(&item, &Mode { spelling: Spelling::Ts, split_lists: true, serde_first: false, junk: None });
         relations += 2;
         result = result.or_else(|| c10_relation("one serde list == one list per key", &src_serde, &split_serde, "split-lists-differ"));
         result = result.or_else(|| c10_relation("one ts list == one list per key", &src_ts, &split_ts, "split-lists-differ"));
@@ -356,6 +359,10 @@ fn c10_eval(words: &[u32], exclude: &[String], stats: Option<&mut Report>) -> Op
         relations += 2;
         result = result.or_else(|| c10_relation("ts(k=v1) + serde(k=v2) == ts(k=v1)", &both, &src_ts, "ts-does-not-win"));
         result = result.or_else(|| c10_relation("ts(k=v) + serde(k=v) == ts(k=v)", &both_same, &src_ts, "ts-does-not-win"));
+        // the same with the serde attribute written in front of the ts attribute
+        let (both_rev, _, _, _) = c10_render(&item, &Mode { spelling: Spelling::BothTsWins, split_lists: false, serde_first: true, junk: None });
+        relations += 1;
+        result = result.or_else(|| c10_relation("serde(k=v2) written before ts(k=v1) == ts(k=v1)", &both_rev, &src_ts, "ts-does-not-win"));
     }
     // junk insertion at every attribute position of the item (one at a time, rotating junk)
     let known_forms_excluded = exclude.iter().any(|e| e == "unparseable-known-key-drops-list");
@@ -372,7 +379,7 @@ fn c10_eval(words: &[u32], exclude: &[String], stats: Option<&mut Report>) -> Op
         if sig == "unparseable-known-key-drops-list" && known_forms_excluded {
             continue;
         }
-        let mode = Mode { spelling: Spelling::Serde, split_lists: false, junk: Some((at, w(40 + at) as usize % 4, junk)) };
+        let mode = Mode { spelling: Spelling::Serde, split_lists: false, serde_first: false, junk: Some((at, w(40 + at) as usize % 4, junk)) };
         let (with_junk, _, adjacent, _) = c10_render(&item, &mode);
         relations += 1;
         nontrivial |= adjacent;
@@ -420,7 +427,7 @@ fn c10_run(tier: &str, seed: u64, exclude: &[String]) -> Report {
                             let mut rr = r.borrow_mut();
                             let f = c10_eval(&words, exclude, Some(&mut rr));
                             let nt = rr.extra.get("last_nontrivial").and_then(|v| v.as_bool()).unwrap_or(false);
-                            let (src, _, _, _) = c10_render(&c10_item(&words), &Mode { spelling: Spelling::Serde, split_lists: false, junk: None });
+                            let (src, _, _, _) = c10_render(&c10_item(&words), &Mode { spelling: Spelling::Serde, split_lists: false, serde_first: false, junk: None });
                             if nt && distinct.borrow_mut().insert(fnv(&src)) {
                                 rr.nontrivial += 1;
                             }
